@@ -232,6 +232,7 @@ package dastard
 //@     invariant -1 <= rangeindex && rangeindex <= len(ds.processors) - 1 && ProcsOK(ds) && InvS(ds.writingState) && unchanged(ds.writingState.Active, ds.writingState.Paused, ds.writingState.WriteLJH22, ds.writingState.WriteLJH3, ds.writingState.WriteOFF)
 //@     invariant done: forall p int :: {at(ds.processors, p)} ds.processors.off <= p && p <= ds.processors.off + rangeindex ==> !at(ds.processors, p).WritingPaused
 //@     invariant rest: forall p int :: {at(ds.processors, p)} ds.processors.off <= p && p < ds.processors.off + len(ds.processors) ==> unchanged(at(ds.processors, p).LJH22, at(ds.processors, p).LJH3, at(ds.processors, p).OFF)
+//@     modifies dp.LJH3.RecordsWritten, dp.LJH3.writer.n, dp.LJH3.writer.acc, dp.LJH3.writer.items, dp.LJH3.writer.mark
 //@   loop 3
 //@     invariant -1 <= rangeindex && rangeindex <= len(ds.processors) - 1 && ProcsOK(ds) && InvS(ds.writingState) && ReportUnchanged(ds)
 //@     invariant done: forall p int :: {at(ds.processors, p)} ds.processors.off <= p && p <= ds.processors.off + rangeindex ==> at(ds.processors, p).LJH22 == nil && at(ds.processors, p).LJH3 == nil && at(ds.processors, p).OFF == nil
@@ -277,6 +278,7 @@ package dastard
 //@     invariant done: forall p int :: {at(ds.processors, p)} ds.processors.off <= p && p <= ds.processors.off + rangeindex ==> at(ds.processors, p).LJH22 == nil && at(ds.processors, p).LJH3 == nil && at(ds.processors, p).OFF == nil
 //@   loop 2
 //@     invariant -1 <= rangeindex && rangeindex <= len(ds.processors) - 1
+//@     modifies dp.LJH3.RecordsWritten, dp.LJH3.writer.n, dp.LJH3.writer.acc, dp.LJH3.writer.items, dp.LJH3.writer.mark
 //@   loop 3
 //@     invariant -1 <= rangeindex && rangeindex <= len(ds.processors) - 1 && ProcsOK(ds) && InvS(ds.writingState) && ReportUnchanged(ds) && config != nil
 //@     invariant flags: unchanged(config.WriteLJH22, config.WriteLJH3, config.WriteOFF, config.MapInternalOnly) && ChanTablesOK(ds)
@@ -349,7 +351,7 @@ package dastard
 
 // LJH 2.2 record number j of writer W is record r (doc/LJH.md: subframe count, timestamp in microseconds, samples).
 //@ pred Rec22Len(W *asyncbufio.Writer, j int, r *DataRecord) := W.mark[j + 1] == W.mark[j] + 16 + 2 * len(r.data)
-//@ pred Rec22Count(W *asyncbufio.Writer, j int, r *DataRecord, sd int, so int) := forall i int :: {W.acc[i]} W.mark[j] <= i && i < W.mark[j] + 8 ==> W.acc[i] == lebyte(r.trigFrame * sd + so, i - W.mark[j])
+//@ pred Rec22Count(W *asyncbufio.Writer, j int, r *DataRecord, sd int, so int) := forall i int :: {W.acc[i]} W.mark[j] <= i && i < W.mark[j] + 8 ==> W.acc[i] == lebyte(sfc(r.trigFrame, sd, so), i - W.mark[j])
 //@ pred Rec22Stamp(W *asyncbufio.Writer, j int, r *DataRecord) := forall i int :: {W.acc[i]} W.mark[j] + 8 <= i && i < W.mark[j] + 16 ==> W.acc[i] == lebyte(tdiv(unixnano(r.trigTime), 1000), i - W.mark[j] - 8)
 //@ pred Rec22Samples(W *asyncbufio.Writer, j int, r *DataRecord) := forall i int :: {W.acc[i]} W.mark[j] + 16 <= i && i < W.mark[j] + 16 + 2 * len(r.data) ==> W.acc[i] == lebyte(at(r.data, r.data.off + (i - W.mark[j] - 16) / 2), (i - W.mark[j] - 16) % 2)
 
@@ -410,19 +412,15 @@ package dastard
 //@     invariant -1 <= rangeindex && rangeindex <= len(records) - 1 && RecsReadable(records) && unchanged(dp.LJH22, dp.LJH3, dp.OFF, dp.WritingPaused, dp.numberWritten)
 //@     invariant w: dp.LJH3 != nil && allocated(dp.LJH3) && dp.LJH3.HeaderWritten && dp.LJH3.writer != nil && allocated(dp.LJH3.writer) && WInv(dp.LJH3.writer)
 //@     invariant count: dp.LJH3.writer.items == ite(old(dp.LJH3.HeaderWritten), old(dp.LJH3.writer.items), 2) + rangeindex + 1 && dp.LJH3.RecordsWritten == old(dp.LJH3.RecordsWritten) + rangeindex + 1
-//@     invariant frozen22: dp.LJH22 != nil ==> W22OK(dp.LJH22) && dp.LJH22.HeaderWritten == pre(dp.LJH22.HeaderWritten) && dp.LJH22.writer == pre(dp.LJH22.writer) && dp.LJH22.RecordsWritten == pre(dp.LJH22.RecordsWritten)
-//@          && (dp.LJH22.HeaderWritten ==> dp.LJH22.writer != dp.LJH3.writer && dp.LJH22.writer.items == pre(dp.LJH22.writer.items) && dp.LJH22.writer.n == pre(dp.LJH22.writer.n)
-//@               && (forall i int :: {dp.LJH22.writer.acc[i]} dp.LJH22.writer.acc[i] == pre(dp.LJH22.writer.acc[i])) && (forall j int :: {dp.LJH22.writer.mark[j]} dp.LJH22.writer.mark[j] == pre(dp.LJH22.writer.mark[j])))
+//@     invariant frozen22: dp.LJH22 != nil && dp.LJH22.HeaderWritten ==> dp.LJH22.writer != dp.LJH3.writer
 //@     invariant others: WOFFOK(dp.OFF) && (dp.OFF != nil ==> unchanged(dp.OFF.headerWritten, dp.OFF.writer, dp.OFF.file, dp.OFF.recordsWritten) && (dp.OFF.headerWritten ==> dp.OFF.writer != dp.LJH3.writer && unchanged(dp.OFF.writer.items, dp.OFF.writer.n)))
+//@     modifies dp.LJH3.RecordsWritten, dp.LJH3.writer.n, dp.LJH3.writer.acc, dp.LJH3.writer.items, dp.LJH3.writer.mark
 //@   loop 3
 //@     invariant -1 <= rangeindex && rangeindex <= len(records) - 1 && RecsReadable(records) && unchanged(dp.LJH22, dp.LJH3, dp.OFF, dp.WritingPaused, dp.numberWritten)
 //@     invariant w: dp.OFF != nil && allocated(dp.OFF) && dp.OFF.headerWritten && dp.OFF.writer != nil && allocated(dp.OFF.writer) && WInv(dp.OFF.writer) && dp.OFF.ModelInfo.projectors != nil && dp.OFF.ModelInfo.basis != nil
 //@     invariant count: dp.OFF.writer.items == ite(old(dp.OFF.headerWritten), old(dp.OFF.writer.items), 4) + rangeindex + 1 && dp.OFF.recordsWritten == old(dp.OFF.recordsWritten) + rangeindex + 1
-//@     invariant frozen22: dp.LJH22 != nil ==> W22OK(dp.LJH22) && dp.LJH22.HeaderWritten == pre(dp.LJH22.HeaderWritten) && dp.LJH22.writer == pre(dp.LJH22.writer) && dp.LJH22.RecordsWritten == pre(dp.LJH22.RecordsWritten)
-//@          && (dp.LJH22.HeaderWritten ==> dp.LJH22.writer != dp.OFF.writer && dp.LJH22.writer.items == pre(dp.LJH22.writer.items) && dp.LJH22.writer.n == pre(dp.LJH22.writer.n)
-//@               && (forall i int :: {dp.LJH22.writer.acc[i]} dp.LJH22.writer.acc[i] == pre(dp.LJH22.writer.acc[i])) && (forall j int :: {dp.LJH22.writer.mark[j]} dp.LJH22.writer.mark[j] == pre(dp.LJH22.writer.mark[j])))
-//@     invariant frozen3: dp.LJH3 != nil ==> W3OK(dp.LJH3) && dp.LJH3.HeaderWritten == pre(dp.LJH3.HeaderWritten) && dp.LJH3.writer == pre(dp.LJH3.writer) && dp.LJH3.RecordsWritten == pre(dp.LJH3.RecordsWritten)
-//@          && (dp.LJH3.HeaderWritten ==> dp.LJH3.writer != dp.OFF.writer && dp.LJH3.writer.items == pre(dp.LJH3.writer.items) && dp.LJH3.writer.n == pre(dp.LJH3.writer.n))
+//@     invariant frozen: (dp.LJH22 != nil && dp.LJH22.HeaderWritten ==> dp.LJH22.writer != dp.OFF.writer) && (dp.LJH3 != nil && dp.LJH3.HeaderWritten ==> dp.LJH3.writer != dp.OFF.writer)
+//@     modifies dp.OFF.recordsWritten, dp.OFF.writer.n, dp.OFF.writer.acc, dp.OFF.writer.items, dp.OFF.writer.mark
 //@   loop 4
 //@     invariant -1 <= rangeindex && rangeindex <= len(record.modelCoefs) - 1 && len(modelCoefs) == len(record.modelCoefs) && fresh(modelCoefs) && record != nil && allocated(record) && allocated(record.modelCoefs)
 //@     modifies modelCoefs[*]
